@@ -233,9 +233,27 @@ def run_config(chk, facts):
                       "`impl Add/Sub/Neg/Mul for Fixed` (all wrap by definition) and no wrapping_* method; a size that wraps negative "
                       "makes the smaller intersection win (F34)")
     WRAP = re.compile(r"(font_types::fixed::Fixed as core::ops::arith::(Add|Sub|Neg|Mul|AddAssign|SubAssign)[^>]*>::|::wrapping_(add|sub|mul|neg)$)")
-    bodies = [b for b in facts.all_bodies(IFT) if "patchmap::IntersectionInfo::" in b.path
-              and any(x in b.path for x in ("::from_subset", "::design_space_size"))]
-    chk.anchor("C19-d", "IntersectionInfo::from_subset / design_space_size", bodies)
+    # the constructors are found by what they do, not by name: a hand-written function that builds an IntersectionInfo value,
+    # plus (transitively) the patchmap functions it calls and their closures
+    allb = {b.path: b for b in facts.all_bodies(IFT)}
+    roots = [b for b in allb.values() if not b.path.startswith("<") and not b.generated
+             and any(st[0] == "A" and st[2][0] == "agg" and st[2][1][0] == "adt" and st[2][1][1].endswith("patchmap::IntersectionInfo")
+                     for _, _, st in b.stmts())]
+    seen, work = {}, list(roots)
+    while work:
+        b = work.pop()
+        if b.path in seen:
+            continue
+        seen[b.path] = b
+        for p2, b2 in allb.items():
+            if p2.startswith(b.path + "::{closure") and p2 not in seen:
+                work.append(b2)
+        for _, t in b.calls():
+            c = re.sub(r"::<[^:]*>$", "", t.callee)
+            if c.startswith("incremental_font_transfer::patchmap::") and c in allb and c not in seen:
+                work.append(allb[c])
+    bodies = sorted(seen.values(), key=lambda b: b.path)
+    chk.anchor("C19-d", "functions that build an IntersectionInfo (today from_subset) and their patchmap callees / closures", bodies)
     n_d = 0
     for b in bodies:
         for bb, t in b.calls():
